@@ -140,7 +140,7 @@ double realPrecision, double valueRangeSize, double medianValue_d)
 		curData = spaceFillingValue[i];
 		pred = preStepData[i];
 		predAbsErr = fabs(curData - pred);
-		if(predAbsErr<=checkRadius)
+		if(predAbsErr<checkRadius) //strictly: at equality the code would be 0 (the unpredictable marker) or intvCapacity (outside the code table)
 		{
 			state = (predAbsErr/realPrecision+1)/2;
 			if(curData>=pred)
